@@ -44,6 +44,7 @@ type Config struct {
 	QuantumNS  int64 // simulated time added per scheduling step
 	MaxSteps   int64
 	FuncYield  bool // honour Yield() calls inserted at function entries
+	StmtYield  bool // honour YieldStmt() calls inserted before every statement of the core store files
 	EpochUnix  int64
 }
 
@@ -677,4 +678,14 @@ func Poison(body []byte, addr uintptr) {
 	for i := range body {
 		body[i] = 0xDD
 	}
+}
+
+// YieldStmt is inserted by the rewriter before every statement of the core store files; it is a
+// scheduling point only in worlds that enable statement-level granularity.
+func YieldStmt() {
+	w := cur
+	if w == nil || !w.Cfg.StmtYield || w.dead {
+		return
+	}
+	w.yield("stmt")
 }
